@@ -74,10 +74,12 @@ def gen_extra_config(rng, calls):
 
 
 def uniq(xs):
+    """distinct rendered classes in first-occurrence order; union members (tuples) are flattened"""
     out = []
     for x in xs:
-        if x not in out:
-            out.append(x)
+        for y in (x if isinstance(x, tuple) else (x,)):
+            if y not in out:
+                out.append(y)
     return out
 
 
@@ -89,6 +91,11 @@ class Arr:
 class Hsh:
     def __init__(self, kv):
         self.kv = dict(kv)
+
+
+def class_set(rendered):
+    import re
+    return frozenset(w for w in re.split(r"[<> ]+", rendered.replace("Union", " ")) if w)
 
 
 def render(t):
@@ -114,6 +121,7 @@ class Gen:
         self.lines = []
         self.expect = {}      # row -> rendered type printed by dbtp
         self.binds = {}       # row -> rendered type of the -i bind hint
+        self.setrows = set()  # rows whose type is compared as a SET of classes (merged hash values: the order of a merged union is not part of the statement)
         self.n = 0
         self.kinds = {}
 
@@ -187,6 +195,42 @@ class Gen:
             self.env[a].elems = uniq(self.env[a].elems + [t])
             self.count("push")
             self.probe(a)
+            return
+        elif r < 0.76 and self.env:
+            # an array of hash literals that share keys: the element is one hash whose value for a key is the union of what the literals hold
+            vals = [(x, t) for x, t in self.env.items() if isinstance(t, (str, tuple))]
+            if not vals:
+                return
+            keys = rng.sample(["a", "b", "c"], rng.randint(1, 2))
+            merged = {}
+            lits = []
+            for _ in range(rng.randint(2, 3)):
+                parts = []
+                for k in keys:
+                    if rng.random() < 0.85:
+                        x, t = rng.choice(vals)
+                        parts.append("%s: %s" % (k, x))
+                        merged.setdefault(k, [])
+                        merged[k] += list(t) if isinstance(t, tuple) else [t]
+                lits.append("{%s}" % ", ".join(parts))
+            if not merged:
+                return
+            self.lines.append("%s = [%s]" % (v, ", ".join(lits)))
+            self.binds[len(self.lines)] = "Array<Hash>"
+            self.count("array-of-hashes")
+            h = self.fresh()
+            self.lines.append("%s = %s[%d]" % (h, v, rng.randint(0, 1)))
+            self.count("index")
+            hs = Hsh([(k, union(cs)) for k, cs in merged.items()])
+            self.env[h] = hs
+            self.binds[len(self.lines)] = "Hash"
+            for k in merged:
+                p = self.fresh()
+                self.assign(p, "%s[:%s]" % (h, k), hs.kv[k], "hash-lookup")
+                self.setrows.add(len(self.lines))
+                self.probe(p)
+                self.setrows.add(len(self.lines))
+                del self.env[p]          # its variant order is ti's, not the reference's: not used further
             return
         elif r < 0.80 and self.env:
             vs = [x for x, t in self.env.items() if isinstance(t, str)]
